@@ -12,7 +12,9 @@ Open Scope Z_scope.
      Write m chk k   res := tx.Create(marker m); if chk && res.Error != nil { return res.Error }
      Read chk k      res := tx.Model(..).Count(&n); same
      Child b chk rcv k   err := tx.Transaction(b); if chk && err != nil { return err }
-                     (rcv: the call is wrapped in a recover(), a panic of b is swallowed)
+                     (rcv: the call is wrapped in a recover(), a panic of b is swallowed;
+                      cx: the call is tx.WithContext(ctx).Transaction(b) with a fresh cancellable ctx)
+     Cancel k        cancel() of the innermost enclosing block's own ctx
      Save n k        if err := tx.SavePoint(n).Error; err != nil { return err }
      RbTo n k        if err := tx.RollbackTo(n).Error; err != nil { return err }          *)
 Inductive outcome := RetNil | RetErr (e : Z) | Panic (p : Z).
@@ -20,9 +22,10 @@ Inductive prog :=
 | Done (o : outcome)
 | Write (m : Z) (chk : bool) (k : prog)
 | Read (chk : bool) (k : prog)
-| Child (b : prog) (chk : bool) (rcv : bool) (k : prog)
+| Child (b : prog) (chk : bool) (rcv : bool) (cx : bool) (k : prog)
 | Save (n : Z) (k : prog)
-| RbTo (n : Z) (k : prog).
+| RbTo (n : Z) (k : prog)
+| Cancel (k : prog).
 
 (* domain of the save-point part of the property: a body rolls back only to save points it
    created itself, at its own level (never across a block boundary downwards) *)
@@ -33,13 +36,33 @@ Fixpoint scoped (avail : list Z) (p : prog) : bool :=
   match p with
   | Done _ => true
   | Write _ _ k | Read _ k => scoped avail k
-  | Child b _ _ k => scoped [] b && scoped avail k
+  | Child b _ _ _ k => scoped [] b && scoped avail k
+  | Cancel k => scoped avail k
   | Save n k => scoped (n :: avail) k
   | RbTo n k => memz n avail && scoped (cutz n avail) k
   end.
 
+(* no block cancels a context: the domain of the theorems *)
+Fixpoint no_cancel (p : prog) : bool :=
+  match p with
+  | Done _ => true
+  | Write _ _ k | Read _ k | Save _ k | RbTo _ k => no_cancel k
+  | Child b _ _ _ k => no_cancel b && no_cancel k
+  | Cancel _ => false
+  end.
+
+(* a Cancel stands inside a block that runs under a context of its own (possibly inherited from
+   an enclosing block): the generator's contract *)
+Fixpoint cancel_ok (inside : bool) (p : prog) : bool :=
+  match p with
+  | Done _ => true
+  | Write _ _ k | Read _ k | Save _ k | RbTo _ k => cancel_ok inside k
+  | Child b _ _ cx k => cancel_ok (cx || inside) b && cancel_ok inside k
+  | Cancel k => inside && cancel_ok inside k
+  end.
+
 (* errors as the harness can tell them apart: errors.Is class + "is not the sentinel itself" *)
-Inductive ecode := EUser (n : Z) | EFault | ETxDone | EInvalidTx | ENoSp | EUnsupported | EOther.
+Inductive ecode := EUser (n : Z) | EFault | ETxDone | EInvalidTx | ENoSp | EUnsupported | ECanceled | EOther.
 Record err := mkErr { e_code : ecode; e_wrapped : bool }.
 Inductive cls := CNil | CErr (e : err) | CPanic (p : Z).
 
@@ -52,8 +75,10 @@ Inductive obs :=
 | OC (entered : bool) (body : list obs) (exit ret : cls).
 
 Inductive opkind := KBegin | KSave | KRbTo | KStmt | KCommit | KRollback.
-(* c_nosp: the dialector does not implement SavePointerDialectorInterface (no save points) *)
-Record cfg := mk_cfg { c_prep : bool; c_nonest : bool; c_skipdef : bool; c_report : bool; c_nosp : bool }.
+(* c_wrap: the pool is a ConnPoolBeginner whose BeginTx returns a wrapper around *sql.Tx (nil on failure);
+   c_soft: that wrapper fails Commit before it reaches
+   database/sql (the transaction stays open).  c_nosp: the dialector does not implement SavePointerDialectorInterface (no save points) *)
+Record cfg := mk_cfg { c_prep : bool; c_nonest : bool; c_skipdef : bool; c_report : bool; c_nosp : bool; c_wrap : bool; c_soft : bool }.
 
 (* ------------------------------------------------------------------ environment *)
 Definition tbl := list Z.
@@ -111,20 +136,23 @@ Record st := mkSt {
   s_ops : list (opkind * bool);    (* driver operations issued so far, newest first; faulted? *)
   s_gen : nat;                     (* save-point names generated so far *)
   s_txlog : list txcall;           (* newest first *)
-  s_fl : flags
+  s_fl : flags;
+  s_dead : bool                    (* the context of the block being run has been cancelled *)
 }.
 
-Definition init_st (db : tbl) : st := mkSt db None [] 0 [] (mkFl false false).
+Definition init_st (db : tbl) : st := mkSt db None [] 0 [] (mkFl false false) false.
 
-Definition set_tx (s : st) (t : option txs) := mkSt (s_db s) t (s_ops s) (s_gen s) (s_txlog s) (s_fl s).
-Definition set_db (s : st) (d : tbl) := mkSt d (s_tx s) (s_ops s) (s_gen s) (s_txlog s) (s_fl s).
-Definition set_fl (s : st) (f : flags) := mkSt (s_db s) (s_tx s) (s_ops s) (s_gen s) (s_txlog s) f.
-Definition log_tx (s : st) (c : txcall) := mkSt (s_db s) (s_tx s) (s_ops s) (s_gen s) (c :: s_txlog s) (s_fl s).
-Definition next_gen (s : st) := mkSt (s_db s) (s_tx s) (s_ops s) (S (s_gen s)) (s_txlog s) (s_fl s).
+Definition set_tx (s : st) (t : option txs) := mkSt (s_db s) t (s_ops s) (s_gen s) (s_txlog s) (s_fl s) (s_dead s).
+Definition set_db (s : st) (d : tbl) := mkSt d (s_tx s) (s_ops s) (s_gen s) (s_txlog s) (s_fl s) (s_dead s).
+Definition set_fl (s : st) (f : flags) := mkSt (s_db s) (s_tx s) (s_ops s) (s_gen s) (s_txlog s) f (s_dead s).
+Definition set_dead (s : st) (d : bool) := mkSt (s_db s) (s_tx s) (s_ops s) (s_gen s) (s_txlog s) (s_fl s) d.
+Definition log_tx (s : st) (c : txcall) := mkSt (s_db s) (s_tx s) (s_ops s) (s_gen s) (c :: s_txlog s) (s_fl s) (s_dead s).
+Definition next_gen (s : st) := mkSt (s_db s) (s_tx s) (s_ops s) (S (s_gen s)) (s_txlog s) (s_fl s) (s_dead s).
 Definition flag_rb (s : st) := set_fl s (mkFl true (x_drop (s_fl s))).
 Definition flag_drop (s : st) := set_fl s (mkFl (x_rb (s_fl s)) true).
 
 Definition fault_err := mkErr EFault false.
+Definition canceled_err := mkErr ECanceled false.
 Definition cls_oe (e : option err) : cls := match e with None => CNil | Some e' => CErr e' end.
 
 (* gorm.go AddError: the first error is kept as is, a later one wraps itself around the text
@@ -147,7 +175,7 @@ Variable fault : nat -> bool.   (* which driver operations (by index) fail *)
 (* one driver operation: logged; fails iff its index is faulted *)
 Definition issue (k : opkind) (s : st) : bool * st :=
   let f := fault (length (s_ops s)) in
-  (f, mkSt (s_db s) (s_tx s) ((k, f) :: s_ops s) (s_gen s) (s_txlog s) (s_fl s)).
+  (f, mkSt (s_db s) (s_tx s) ((k, f) :: s_ops s) (s_gen s) (s_txlog s) (s_fl s) (s_dead s)).
 
 (* a data statement on handle h: getInstance copies the handle's Error and every callback is
    guarded by db.Error == nil; the implicit BeginTransaction finds a Tx pool
@@ -156,6 +184,8 @@ Definition h_stmt (w : option Z) (h : option err) (s : st) : option err * Z * st
   match h with
   | Some e => (Some e, 0, s)
   | None =>
+    if s_dead s then (Some canceled_err, 0, s)   (* the context is done: database/sql refuses before any driver call *)
+    else
     match s_tx s with
     | None => (Some (mkErr ETxDone false), 0, s)
     | Some t =>
@@ -173,6 +203,8 @@ Definition exec_sp (save : bool) (n : spname) (h : option err) (s : st) : option
   match h with
   | Some e => (Some e, s)
   | None =>
+    if s_dead s then (Some canceled_err, s)
+    else
     match s_tx s with
     | None => (Some (mkErr ETxDone false), s)
     | Some t =>
@@ -199,6 +231,8 @@ Definition h_sp (save : bool) (n : spname) (h : option err) (s : st) : option er
 (* sql.Tx.Commit / Rollback: the first call ends the transaction whether or not the driver
    call fails (the recording driver rolls back on an injected failure); later calls: ErrTxDone *)
 Definition tx_end (commit : bool) (s : st) : option err * st :=
+  if commit && c_soft C then (Some fault_err, s)   (* the pool's wrapper fails Commit itself: nothing reaches database/sql *)
+  else
   let s := log_tx s TEnd in
   match s_tx s with
   | None => (Some (mkErr ETxDone false), s)
@@ -214,8 +248,8 @@ Definition h_end (commit : bool) (h : option err) (s : st) : option err * st :=
 (* DB.Transaction, nested branch (ConnPool is a TxCommitter).  SavePoint / RollbackTo are
    called on db.Session(&Session{}): a copy of the handle (it starts with the handle's Error),
    so what they add stays on the copy and the enclosing handle h is returned unchanged *)
-Definition nested (body : option err -> st -> res * list obs * option err * st)
-                  (h : option err) (s : st) : res * obs * option err * st :=
+Definition nested0 (body : option err -> st -> res * list obs * option err * st)
+                   (h : option err) (s : st) : res * obs * option err * st :=
   if c_nonest C then
     let '(r, l, _, s1) := body h s in     (* fc(db.Session(...)): the child handle copies h *)
     (r, OC true l (cls_of r) (cls_of r), h, s1)
@@ -236,6 +270,14 @@ Definition nested (body : option err -> st -> res * list obs * option err * st)
       end
     end.
 
+(* cx: the receiver is tx.WithContext(ctx) with a fresh ctx: the block, its SAVEPOINT and its
+   ROLLBACK TO run under ctx; afterwards the enclosing context is in force again *)
+Definition nested (cx : bool) (body : option err -> st -> res * list obs * option err * st)
+                  (h : option err) (s : st) : res * obs * option err * st :=
+  if cx then
+    let '(r, o, h', s') := nested0 body h (set_dead s false) in (r, o, h', set_dead s' (s_dead s))
+  else nested0 body h s.
+
 Fixpoint run_body (p : prog) (h : option err) (s : st) : res * list obs * option err * st :=
   match p with
   | Done RetNil => (ROk, [], h, s)
@@ -255,8 +297,9 @@ Fixpoint run_body (p : prog) (h : option err) (s : st) : res * list obs * option
     | Some e', true => (RErr e', [o], h, s1)
     | _, _ => let '(r, l, h2, s2) := run_body k h s1 in (r, o :: l, h2, s2)
     end
-  | Child b chk rcv k =>
-    let '(r, o, h1, s1) := nested (run_body b) h s in
+  | Cancel k => run_body k h (set_dead s true)
+  | Child b chk rcv cx k =>
+    let '(r, o, h1, s1) := nested cx (run_body b) h s in
     match r with
     | ROk => let '(r', l, h2, s2) := run_body k h1 s1 in (r', o :: l, h2, s2)
     | RErr e =>
@@ -292,13 +335,13 @@ Fixpoint run_extra (l : list bool) (h : option err) (s : st) : list cls * st :=
 
 (* Commit / Rollback called on the handle of a FAILED Begin (manual programs): ConnPool holds the
    typed-nil *sql.Tx the driver returned (Commit: ErrInvalidTransaction, Rollback: the IsNil guard
-   makes it a no-op) or, with PrepareStmt, a *PreparedStmtTX around it (both:
-   ErrInvalidTransaction); no driver call, nothing reaches database/sql *)
+   makes it a no-op) or, with PrepareStmt, a *PreparedStmtTX around it, or, with a wrapping
+   pool, nothing at all (both: ErrInvalidTransaction for Commit and Rollback); no driver call, nothing reaches database/sql *)
 Fixpoint run_extra_failed (l : list bool) (h : option err) : list cls :=
   match l with
   | [] => []
   | c :: r =>
-    let h1 := if c || c_prep C then add_error h (Some (mkErr EInvalidTx false)) else h in
+    let h1 := if c || c_prep C || c_wrap C then add_error h (Some (mkErr EInvalidTx false)) else h in
     cls_oe h1 :: run_extra_failed r h1
   end.
 
@@ -314,10 +357,10 @@ Definition finish (manual : bool) (extra : list bool) (r : res) (l : list obs) (
     match h2 with
     | None => let '(x, s4) := run_extra (if manual then extra else []) h2 s3 in
               (OC true l CNil CNil, x, s4)
-    | Some e =>
-      if manual then let '(x, s4) := run_extra extra h2 s3 in (OC true l CNil (CErr e), x, s4)
-      else let '(_, s4) := h_end false h2 s3 in                (* deferred tx.Rollback() *)
-           (OC true l CNil (CErr e), [], s4)
+    | Some e =>   (* deferred tx.Rollback() / the manual program's "if err != nil { tx.Rollback() }" *)
+      let '(h3, s4) := h_end false h2 s3 in
+      let '(x, s5) := run_extra (if manual then extra else []) h3 s4 in
+      (OC true l CNil (CErr e), x, s5)
     end
   | RErr e =>
     let '(h2, s3) := h_end false h s2 in                       (* tx.Rollback() *)
